@@ -101,7 +101,18 @@ def load_repo(need_gnss=False, need_api=False, need_standalone=False):
         path = os.path.join(root, 'Standalone', 'mga2gda.py')
         ns.standalone_path = path
     ns.root = root
+    apply_ambient_state()
     return ns
+
+
+def apply_ambient_state():
+    """Process state a host program may have changed before it calls the library (only after the library is imported: a host
+    changes such settings at run time): the precision of the thread's decimal context.  The harness's own oracles use
+    explicit local contexts."""
+    prec = os.environ.get('VERIF_DECIMAL_PREC')
+    if prec:
+        import decimal
+        decimal.getcontext().prec = int(prec)
 
 
 def _assert_under(mod, root):
@@ -579,21 +590,37 @@ def shard_environment(idx):
     """Environment of shard `idx`: every second shard runs in a time zone with daylight saving (southern / northern rule,
     POSIX TZ strings: no tz database needed), every third in a scratch working directory of its own."""
     tz = SHARD_TIMEZONES[idx % len(SHARD_TIMEZONES)] if isinstance(idx, int) else None
-    return {'TZ': tz, 'own_cwd': isinstance(idx, int) and idx % 3 == 1}
+    ok = isinstance(idx, int)
+    return {'TZ': tz, 'own_cwd': ok and idx % 3 == 1,
+            # the interpreter's hash seed decides the iteration order of sets of strings: five different seeds over the shards
+            'PYTHONHASHSEED': str((idx * 7 + 3) % 5 if ok and idx % 2 else 0),
+            # every fourth shard runs with a host program's lowered decimal precision (set after the library is imported)
+            'VERIF_DECIMAL_PREC': '6' if ok and idx % 4 == 2 else ''}
 
 
 def call_environment():
-    return {'TZ': os.environ.get('TZ'), 'cwd_is_verif_root': os.path.realpath(os.getcwd()) == os.path.realpath(VERIF_ROOT)}
+    import decimal
+    return {'TZ': os.environ.get('TZ'), 'cwd_is_verif_root': os.path.realpath(os.getcwd()) == os.path.realpath(VERIF_ROOT),
+            'PYTHONHASHSEED': os.environ.get('PYTHONHASHSEED'), 'decimal_prec': decimal.getcontext().prec}
 
 
 def apply_environment(env):
+    """Restore the environment a witness was observed in (replay).  Returns True when the interpreter has to be started
+    again for it (the hash seed is fixed at start-up)."""
     import time as _t
-    tz = (env or {}).get('TZ')
+    env = env or {}
+    tz = env.get('TZ')
     if tz:
         os.environ['TZ'] = tz
     else:
         os.environ.pop('TZ', None)
     _t.tzset()
+    if env.get('decimal_prec') and int(env['decimal_prec']) != 28:
+        os.environ['VERIF_DECIMAL_PREC'] = str(env['decimal_prec'])
+    else:
+        os.environ.pop('VERIF_DECIMAL_PREC', None)
+    hs = env.get('PYTHONHASHSEED')
+    return bool(hs is not None and os.environ.get('PYTHONHASHSEED') != hs)
 
 
 # --------------------------------------------------------------------------------------------
